@@ -121,8 +121,10 @@ class LazyCall:
             ):
                 yield {**i, **j}
         elif isinstance(self.x, LazyCall):
+            # the inner object may be shared (copy, data_replace) and have
+            # been set to another batch size since as_dataset
             for i, j in zip(
-                self.x, self._extra_batches()
+                self.x.as_dataset(self.batch_size), self._extra_batches()
             ):
                 yield {**self.f(i, *self.args, **self.kwargs), **j}
         else:
